@@ -10,6 +10,8 @@ Proof. apply key_eqb_eq. reflexivity. Qed.
 Lemma key_eqb_neq a b : key_eqb a b = false <-> a <> b.
 Proof. rewrite <- key_eqb_eq. destruct (key_eqb a b); split; congruence. Qed.
 
+Global Arguments put : simpl never.
+
 Ltac dK a b := let H := fresh "Hk" in destruct (key_eqb a b) eqn:H; [apply key_eqb_eq in H | apply key_eqb_neq in H].
 
 Section StoreFacts.
